@@ -738,8 +738,8 @@ J(name="c12.radsToDegs", props=["C12", "C18"], harness="c12.c", entry="h_radsToD
 J(name="c12.gridDiskUnsafe", props=["C12", "C18", "C05"], harness="c12.c", entry="h_gridDiskUnsafe", enforce=["gridDiskUnsafe"],
   replace=["gridDiskDistancesUnsafe/gridDiskDistancesUnsafe_ghost"])
 
-J(name="c12.h3ToFaceIjk.badbc", props=["C12", "C18"], harness="c12.c", entry="h_h3ToFaceIjk", enforce=["_h3ToFaceIjk/_h3ToFaceIjk_badbc"],
-  unwind=17, timeout=900, checks=["--no-standard-checks", "--bounds-check", "--pointer-check"])
+J(name="c12.h3ToFaceIjk.badbc", props=["C12", "C18"], harness="c12.c", entry="h_h3ToFaceIjk", enforce=["_h3ToFaceIjk/_h3ToFaceIjk_badbc"], tier="never",
+  unwind=17, timeout=900, checks=["--no-standard-checks", "--bounds-check", "--pointer-check"])   # monolithic: > 12 min; subsumed by c12.h3ToFaceIjk.hexbc.m
 J(name="c12.adjustOverageClassII", props=["C12", "C18", "C19"], harness="c12.c", entry="h_adjustOverageClassII",
   enforce=["_adjustOverageClassII/_adjustOverageClassII_safe"], unwind=7, checks=["--no-standard-checks", "--bounds-check", "--pointer-check"])
 J(name="c12.h3ToFaceIjk.hexbc.m", props=["C12", "C18"], harness="c12.c", entry="h_h3ToFaceIjk", enforce=["_h3ToFaceIjk/_h3ToFaceIjk_hexbc"],
